@@ -621,3 +621,39 @@ Proof.
   - apply safe_overtake. exact Hsafe.
   - apply safe_stage. exact Hsafe.
 Qed.
+
+(* ---- on the barrier machine itself --------------------------------------------------------------------- *)
+From Snax Require Import Model.MultiCoreStreams Proofs.MultiCoreMachine Proofs.MultiCoreStreamsProofs.
+
+Lemma Forall2_schedule_refl : forall phs : list (list mop), Forall2 schedule_of phs phs.
+Proof. induction phs as [|ph r IH]; constructor; [apply schedule_of_refl | exact IH]. Qed.
+
+(* C15 on the machine: the DM core (1) and the compute core (0) run their streams of the unrolled
+   code, synchronised only by the cluster barriers; every maximal execution terminates (no deadlock)
+   and leaves, outside the duplicated pairs, the buffers of the original sequential loop *)
+Theorem pipeline_machine : forall p ds n m,
+  safe_pipe p ds = true ->
+  (forall b, In b ds -> In (Fixed b) (all_operands p)) ->
+  (forall k o, In o (nth k (p_stages p) []) -> s_core o = 0 \/ s_core o = 1) ->
+  (1 <= nstages p)%nat -> (nstages p - 1 <= n)%nat ->
+  forall cfg, steps (streams_of [0; 1] (pipe_events p ds (Z.of_nat n) 1), m) cfg ->
+    (all_finished (fst cfg) = true /\
+     forall x, ~ duprel ds x -> snd cfg x = exec (concat (seq_events p 0 (Z.of_nat n) 1)) m x) \/
+    (exists cfg', step cfg cfg').
+Proof.
+  intros p ds n m Hsafe Hds Hcores HS Hn cfg Hsteps.
+  destruct (machine_phases [0; 1] (pipe_events p ds (Z.of_nat n) 1) m) with (cfg := cfg) as [[Hfin Hm]|Hstep].
+  - discriminate.
+  - repeat constructor; simpl; intuition discriminate.
+  - intros ph o Hph Ho. unfold pipe_events in Hph. apply in_map_iff in Hph as [ph0 [<- _]].
+    unfold phase_ops in Ho. apply in_flat_map in Ho as [[k t] [_ Ho]]. apply in_pair_ops in Ho as [o' [Ho' ->]].
+    simpl. destruct (Hcores k o' Ho') as [E|E]; rewrite E; [left | right; left]; reflexivity.
+  - apply phases_drf; try assumption.
+    + apply safe_overtake. exact Hsafe.
+    + apply safe_stage. exact Hsafe.
+    + apply vids_unique_safe with (ds := ds). exact Hsafe.
+  - exact Hsteps.
+  - left. split; [exact Hfin|]. intros x Hx. rewrite (Hm x).
+    apply (pipeline_equiv p ds n m (pipe_events p ds (Z.of_nat n) 1) x Hsafe Hds HS Hn (Forall2_schedule_refl _) Hx).
+  - right. exact Hstep.
+Qed.
